@@ -24,7 +24,7 @@
    EscapeKeys = TRUE is the intended (and, since the repair, the implemented) dump;
    EscapeKeys = FALSE is the dump of the unrepaired code (object keys written verbatim), kept
    as a named deviation: the model must reject it.                                          *)
-EXTENDS Integers, Sequences, FiniteSets, TLC, Json
+EXTENDS Integers, Sequences, FiniteSets, TLC, Json, Randomization
 
 CONSTANTS Sym,        \* sequence of content symbols, in byte order
           NumToks,    \* set of number tokens (atomic)
@@ -232,11 +232,14 @@ Next == \/ \E x \in Leafs : SetRoot(x)
         \/ \E p \in ContainerPaths(doc), key \in KeyPool, x \in Leafs : ObjPut(p, key, x)
         \/ \E p \in ContainerPaths(doc), x \in Leafs : ArrPush(p, x)
 
-\* random generation (simulation runs): one random key / leaf per container instead of all
-NextRand == \/ \E x \in Leafs : SetRoot(x)
-            \/ \E p \in ContainerPaths(doc) :
-                 \/ ObjPut(p, RandomElement(KeyPool), RandomElement(Leafs))
-                 \/ ArrPush(p, RandomElement(Leafs))
+\* random generation (simulation runs): one random container, key and leaf per step
+\* A behaviour is printed once, by a final stuttering step.
+Build == \/ \E x \in {ArrV(E), ObjV(E, E)} : SetRoot(x)      \* scalar roots: generators A and C
+         \/ \E p \in RandomSubset(1, ContainerPaths(doc)), key \in RandomSubset(1, KeyPool), x \in RandomSubset(1, Leafs) :
+              ObjPut(p, key, x) \/ ArrPush(p, x)
+Finished == Len(hist) >= MaxHist \/ (doc.k # "none" /\ (doc.k \notin {"arr", "obj"} \/ Nodes(doc) >= MaxNodes))
+NextRand == \/ ~Finished /\ Build
+            \/ Finished /\ PrintT(<<"B", ToJson(hist)>>) /\ UNCHANGED vars
 
 Spec == Init /\ [][Next]_vars
 SpecRand == Init /\ [][NextRand]_vars
